@@ -22,6 +22,9 @@
 //	q<i>              POP3: send QUIT and read the reply only                               -> +OK
 //	e<i>              wait until the server has closed session i's connection               -> +OK/<messages left>
 //
+//	lifet <op,…>      as life, but both servers run with an idle Timeout of 1 s (a session that keeps talking is never idle)
+//	b<i>:<ms>         keep session i busy for <ms> milliseconds: a NOOP every 200 ms, each answered        -> last reply
+//
 //	tls <op,…>        as life, but the POP3 server runs with TLSEnabled+ForceTLS (self-signed certificate made at
 //	                  run time) and POP3 clients speak TLS; extra op xP: a plain-text client on the TLS port      -> dropped
 //
@@ -226,6 +229,8 @@ func selfSigned(dir string) (certFile, keyFile string, err error) {
 	return certFile, keyFile, err
 }
 
+var shortTimeouts bool // kind lifet: idle Timeout of 1 s on both servers
+
 func newWorld(retention string, tlsPOP3 bool) (*world, error) {
 	storage.Constructors["memory"] = mem.New
 	for _, e := range os.Environ() {
@@ -237,6 +242,10 @@ func newWorld(retention string, tlsPOP3 bool) (*world, error) {
 	setenv("INBUCKET_POP3_ADDR", "127.0.0.1:0")
 	setenv("INBUCKET_SMTP_TIMEOUT", "30s")
 	setenv("INBUCKET_POP3_TIMEOUT", "30s")
+	if shortTimeouts {
+		setenv("INBUCKET_SMTP_TIMEOUT", "1s")
+		setenv("INBUCKET_POP3_TIMEOUT", "1s")
+	}
 	setenv("INBUCKET_STORAGE_TYPE", "memory")
 	setenv("INBUCKET_STORAGE_RETENTIONPERIOD", retention)
 	setenv("INBUCKET_STORAGE_RETENTIONSLEEP", "40ms")
@@ -567,6 +576,22 @@ func runLife(ops []string, tlsPOP3 bool) []string {
 		case o == "U":
 			w.gs.open()
 			outs = append(outs, ".")
+		case o[0] == 'b':
+			c := cs[vh.AtoI(f[0][1:])]
+			if c == nil || !c.open || c.hold != nil || len(f) < 2 {
+				outs = append(outs, "?")
+				continue
+			}
+			last := "?"
+			until := time.Now().Add(time.Duration(vh.AtoI(f[1])) * time.Millisecond)
+			for time.Now().Before(until) {
+				last = c.cmd("NOOP")
+				if last != "250" && last != "+OK" {
+					break
+				}
+				time.Sleep(200 * time.Millisecond)
+			}
+			outs = append(outs, last)
 		case o[0] == 'q':
 			c := cs[vh.AtoI(o[1:])]
 			if c == nil || !c.open || c.hold != nil || c.proto != 1 {
@@ -1033,7 +1058,8 @@ func run1(kind string, in []string) []string {
 		return runBoot(in[0], in[1])
 	case "scan":
 		return runScan(vh.AtoI(in[0]), vh.AtoI(in[1]), vh.AtoI(in[2]))
-	case "life", "tls":
+	case "life", "tls", "lifet":
+		shortTimeouts = kind == "lifet"
 		var ops []string
 		if in[0] != "-" {
 			ops = strings.Split(in[0], ",")
